@@ -29,6 +29,8 @@ from ahbicht.expressions.hints_provider import HintsProvider
 from ahbicht.expressions.package_expansion import PackageResolver
 from ahbicht.models.condition_nodes import EvaluatedFormatConstraint
 from ahbicht.models.mapping_results import PackageKeyConditionExpressionMapping
+from vstat_ext import (vstat_astimezone, vstat_component, vstat_offset_equals, vstat_same_wallclock, vstat_text,
+                       vstat_unsupported)
 
 
 class StubRcEvaluator(RcEvaluator):
@@ -64,6 +66,73 @@ class StubTokenLogicProvider:
 
     def get_package_resolver(self, edifact_format, edifact_format_version):
         return self.packages
+
+
+class AbstractDateTime:
+    """An aware/naive datetime whose instant is unknown; only the zone it is expressed in is tracked."""
+
+    def __init__(self, tzinfo, zone):
+        self.tzinfo = tzinfo
+        self.zone = zone
+        self.year = vstat_component(zone, "year")
+        self.month = vstat_component(zone, "month")
+        self.day = vstat_component(zone, "day")
+        self.hour = vstat_component(zone, "hour")
+        self.minute = vstat_component(zone, "minute")
+        self.second = vstat_component(zone, "second")
+
+    def __sub__(self, other):
+        return AbstractDateTime(self.tzinfo, "computed-from:" + self.zone)
+
+    def __add__(self, other):
+        return AbstractDateTime(self.tzinfo, "computed-from:" + self.zone)
+
+    def astimezone(self, tz=None):
+        return vstat_astimezone(self, tz)
+
+    def time(self):
+        return AbstractTime(self.zone)
+
+    def timetz(self):
+        return AbstractTime(self.zone)
+
+    def isoformat(self, *args):
+        return vstat_text("isoformat")
+
+    def utcoffset(self):
+        return AbstractOffset(self.zone)
+
+    def replace(self, **kwargs):
+        return vstat_unsupported("datetime.replace")
+
+
+class AbstractTime:
+    def __init__(self, zone):
+        self.zone = zone
+        self.hour = vstat_component(zone, "hour")
+        self.minute = vstat_component(zone, "minute")
+        self.second = vstat_component(zone, "second")
+        self.microsecond = 0
+
+    def __eq__(self, other):
+        return vstat_same_wallclock(self, other)
+
+    def __str__(self):
+        return vstat_text("time")
+
+
+class AbstractOffset:
+    def __init__(self, zone):
+        self.zone = zone
+
+    def __eq__(self, other):
+        return vstat_offset_equals(self, other)
+
+    def total_seconds(self):
+        return vstat_component(self.zone, "offset_seconds")
+
+    def __str__(self):
+        return vstat_text("offset")
 
 
 def make_rc_method(result, is_async):
